@@ -177,6 +177,70 @@ func (c *Ctx) gatedShapeRules(prefix string) {
 			pos = p.InstrPos(scans[0])
 		}
 		r.Check(ok, rule, "Process:scan-before-insert", pos, "processExpiredEvents(ctx) dominates every insertion into the gate", "the expiry scan does not precede every insertion into the gate in Process")
+		if prefix == "C17" && len(scans) == 1 {
+			// "after ANY successful Process call made at T no group whose expiry lies before T remains
+			// gated": every path that returns a nil error has run the scan
+			okAll := true
+			for _, pa := range c.enum(rule, proc, PathOpts{}) {
+				rv := pa.RetVals()
+				if len(rv) != 2 || !isNilConst(rv[1]) {
+					continue
+				}
+				scanned := false
+				for _, s := range pa.Steps {
+					if s.In == ssa.Instruction(scans[0]) && s.Depth == 0 {
+						scanned = true
+					}
+				}
+				if !scanned && okAll {
+					okAll = false
+					r.Bad(rule, "Process:scan-on-every-success", p.InstrPos(pa.End), "Process returns successfully without having run the expiry scan (a non-Gateable event passes straight through): at that moment groups whose expiry lies in the past are still gated, and a filter that only sees non-Gateable traffic from then on holds them for ever ("+p.PathSummary(pa)+")")
+				}
+			}
+			if okAll {
+				r.Ok(rule, "Process:scan-on-every-success", p.InstrPos(scans[0]), "every successful return of Process ran the expiry scan")
+			}
+			// a group is stamped with a POSITIVE expiration: every path to the stamp established
+			// Expiration > 0 or replaced it by the default
+			okPos, nStamp := true, 0
+			for _, pa := range c.enum(rule, proc, PathOpts{}) {
+				stamps := false
+				for _, s := range pa.CallsOn() {
+					if stepCallName(s) == "(time.Time).Add" && s.Depth == 0 {
+						if ci, ok := s.In.(ssa.CallInstruction); ok && pa.TermsAt(s).Of(ci.Common().Args[1]).Is("Field", "Expiration") {
+							stamps = true
+						}
+					}
+				}
+				if !stamps {
+					continue
+				}
+				nStamp++
+				positive := false
+				for _, at := range pa.Atoms {
+					// 0 < Expiration established (x > 0, !(x <= 0) ... all normalise to lt(0, x)), or k <= Expiration for k >= 1
+					if at.Op == "lt" && !at.Neg && at.R.Is("Field", "Expiration") && at.L.Op == "Const" {
+						if k, ok := constInt(at.L.V); ok && k >= 0 {
+							positive = true
+						}
+					}
+				}
+				for _, s := range pa.Steps {
+					if st, ok := s.In.(*ssa.Store); ok {
+						if b, ok := pa.TermsAt(s).Of(st.Addr).IsFieldAddr("Expiration"); ok && b.IsParam("0:w") {
+							positive = true
+						}
+					}
+				}
+				if !positive && okPos {
+					okPos = false
+					r.Bad(rule, "Process:positive-expiration", p.InstrPos(pa.End), "a group is stamped with w.Now().Add(w.Expiration) on a path that neither found the expiration positive nor replaced it: with a negative Expiration the group is born expired and is still gated when the Process call that opened it returns ("+p.PathSummary(pa)+")")
+				}
+			}
+			if okPos {
+				r.Check(nStamp > 0, rule, "Process:positive-expiration", pos, fmt.Sprintf("%d stamping paths, each with a positive or defaulted expiration", nStamp), "no path of Process stamps a group")
+			}
+		}
 	}
 }
 
@@ -327,9 +391,11 @@ func runC11(c *Ctx) {
 	c.ruleGatedInsert("C11.insert")
 	c.ruleComposer("C11.composer")
 	c.ruleListOps("C11.listops")
+	c.ruleNoHandOff("C11.section", PkgGated)
 	c.ruleGatedOrder()
 	c.ruleGatedNoGate("C11.nogate")
 	c.ruleGatedPass("C11.pass")
+	c.ruleGatedPassOnly("C11.pass")
 	ni := 0
 	for _, f := range p.FuncsIn(PkgGated) {
 		ni += c.listIterRule("C11.iter", f, false)
@@ -375,7 +441,9 @@ func (c *Ctx) ruleGatedOrder() {
 			continue
 		}
 		// locate the flush test
-		flushPol, flushFound := hasAtom(pa, func(at Atom) bool { return at.Op == "true" && at.L.Op == "Call" && at.L.Name == "invoke gated.Gateable.FlushEvent" })
+		flushPol, flushFound := hasAtom(pa, func(at Atom) bool {
+			return at.Op == "true" && at.L.Op == "Call" && at.L.Name == "invoke gated.Gateable.FlushEvent"
+		})
 		if !flushFound {
 			continue // early exits (nil event, not gateable, scan error)
 		}
